@@ -49,7 +49,7 @@ def showDoc : Doc → String
 def showRes : Res → String
   | .ok => "ok" | .errEmptyName => "err:empty-name" | .errLen => "err:len" | .errExists => "err:exists"
   | .errNoUser => "err:nouser" | .errSame => "err:same" | .errDup => "err:dup" | .errParse => "err:parse"
-  | .errInvalid => "err:invalid"
+  | .errInvalid => "err:invalid" | .panicked => "panic"
 
 def showLive (keys : List Key) (live : Option ULM) (hs : Bool) : String :=
   match live with
